@@ -208,6 +208,6 @@ def make_machine(col, sub):
 
 
 def run_shard(ctx):
-    ctx.drive_machine("machine", make_machine(ctx.col, "machine"), ctx.budget(4000, 80000), steps=25 if ctx.tier == "quick" else 50)
+    ctx.drive_machine("machine", make_machine(ctx.col, "machine"), ctx.budget(8000, 100000), steps=25 if ctx.tier == "quick" else 50)
     ctx.drive("algos", gen.run_case(T_max=150, poo_ok_only=True, gpo_ok_only=True, script_prob=0.3),
-              check_case, ctx.budget(1600, 30000))
+              check_case, ctx.budget(3200, 40000))
